@@ -605,7 +605,10 @@ class Interpreter:
 
             # Take all the descendants of this state and list the ones that are active
             # Mind the reversed order!
-            for descendant in self._statechart.descendants_for(last_before_lca)[::-1]:
+            # Deepest first, ties broken by name (not by declaration order)
+            for descendant in sorted(
+                    self._statechart.descendants_for(last_before_lca),
+                    key=lambda s: (-self._statechart.depth_for(s), s)):
                 # Only leave states that are currently active
                 if descendant in self._configuration:
                     exited_states.append(descendant)
